@@ -16,16 +16,32 @@ RULE = ("a case is a program of 1-25 tokens (ordinary / jump / jcc / call / ret 
         "tiling (contiguous, ordered, at most one empty block at the end); every control transfer ends its block with "
         "exactly the edges of its kind, fallthroughs lead to the physically next block; labels become symbols at their "
         "position; .byte-only blocks without incoming edges are data, blocks with instructions are code; each symbolic "
-        "operand yields one expression with the right symbol (identity for module symbols), addend, attributes, size. "
+        "operand yields one expression with the right symbol (identity for module symbols), addend, attributes, size; "
+        "a LEB128 value sits alone in a data block typed ULEB128/SLEB128; every CFI directive is keyed at its listing "
+        "position, in listing order, personality/LSDA/return column at their procedure's start. "
         "Non-trivial = the program contains at least two of {label directly after a terminator, data run next to code, "
         "several labels in a row, section switch, .align}; distinct by spec hash.")
 ASSUMPTIONS = [
     "expected bytes come from the calibrated template table and from the directive definitions",
     "where block boundaries fall between ordinary instructions / data is not judged, only that blocks tile the section",
     "sizes of symbolic expressions: exact on x86, within 1..8 on ARM64/MIPS32",
-    "CFI directives inside programs are exercised by C08 (patch CFI), not here",
+    ".uleb128/.sleb128 with a constant operand is rejected by the library as unsupported and is not generated; a LEB128 "
+    "value in the executable section that control flow reaches is a documented rejection (UnsupportedAssemblyError), accepted",
+    "blocks that carry CFI directives are not judged by the code/data classification clause (the library keeps them code "
+    "because cfiDirectives can only describe code blocks)",
 ]
 MIPS_OK = ("nop", "xor", "push", "mark")
+CFI_KINDS = ["start", "start", "end", "end", "def_cfa", "def_cfa_offset", "def_cfa_register", "adjust", "offset",
+             "rel_offset", "register", "remember", "restore_state", "restore", "same_value", "undefined", "escape",
+             "personality", "lsda", "return_column"]
+CFI_TEXT = {
+    "def_cfa": (".cfi_def_cfa", "ab"), "def_cfa_offset": (".cfi_def_cfa_offset", "b"),
+    "def_cfa_register": (".cfi_def_cfa_register", "a"), "adjust": (".cfi_adjust_cfa_offset", "b"),
+    "offset": (".cfi_offset", "ab"), "rel_offset": (".cfi_rel_offset", "ab"), "register": (".cfi_register", "aA"),
+    "remember": (".cfi_remember_state", ""), "restore_state": (".cfi_restore_state", ""),
+    "restore": (".cfi_restore", "a"), "same_value": (".cfi_same_value", "a"), "undefined": (".cfi_undefined", "a"),
+}
+PTR_ENC = [0x9B, 0x1B, 0x00, 0x03]
 
 
 def calibrate():
@@ -50,9 +66,15 @@ def _tok(isa):
         st.fixed_dictionaries({"d": st.sampled_from(["string", "ascii"]), "s": st.sampled_from(["a", "hi", "xyz"])}),
         st.fixed_dictionaries({"d": st.just("word"), "sym": ref, "add": st.sampled_from([0, 0, 4]), "w": st.sampled_from([4, 8])}),
         st.fixed_dictionaries({"d": st.just("align"), "n": st.sampled_from([2, 4, 8])}),
+        st.fixed_dictionaries({"d": st.just("leb"), "s": st.booleans(), "sym": ref}),
     )
+    cfi = st.fixed_dictionaries({"cfi": st.sampled_from(CFI_KINDS), "a": st.integers(0, 15), "b": st.integers(-64, 64),
+                                 "sym": ref, "esc": st.lists(st.integers(0, 255), min_size=1, max_size=4)})
     sec = st.fixed_dictionaries({"sec": st.sampled_from(["text", "data", "rodata", "text"])})
-    return st.one_of(insn, insn, insn, lab, lab, data, sec)
+    # bursts of CFI directives and labels at one position (several empty
+    # blocks in a row that the assembler has to merge)
+    burst = st.fixed_dictionaries({"seq": st.lists(st.one_of(cfi, cfi, lab), min_size=2, max_size=5)})
+    return st.one_of(insn, insn, insn, insn, lab, lab, data, data, sec, cfi, cfi, burst)
 
 
 def strategy(tier):
@@ -86,7 +108,9 @@ def _program(spec):
     isa, fmt = spec["isa"], spec["fmt"]
     tab = I.table(isa)
     intel = spec.get("syntax") == "intel"
-    toks = spec["toks"]
+    toks = []
+    for t in spec["toks"]:
+        toks.extend(t["seq"] if "seq" in t else [t])
     # labels first
     tprefix = I.temp_prefix(isa, fmt)
     own = []
@@ -132,7 +156,62 @@ def _program(spec):
         undef.add(nm)
         return nm, "undef"
 
+    proc = None   # the open CFI procedure (.text only): dict(depth, pers, lsda, rc)
+
+    def cfi_item(name, args, sym=None, how=None, group="insn"):
+        sections[".text"].append(_Item("cfi", pos[".text"], 0, d=(name, list(args), sym), how=how, group=group))
+
     for t in toks:
+        if "cfi" in t:
+            # well-formed by construction: directives only inside a procedure,
+            # procedures only in .text, restore_state only after remember_state
+            k = t["cfi"]
+            if cur != ".text":
+                continue
+            if k == "start":
+                if proc is not None:
+                    lines.append(".cfi_endproc")
+                    cfi_item(".cfi_endproc", [], group="end")
+                proc = {"depth": 0}
+                lines.append(".cfi_startproc")
+                cfi_item(".cfi_startproc", [], group="start")
+                continue
+            if proc is None:
+                continue
+            if k == "end":
+                lines.append(".cfi_endproc")
+                cfi_item(".cfi_endproc", [], group="end")
+                proc = None
+            elif k in ("personality", "lsda"):
+                if k in proc:
+                    continue
+                proc[k] = True
+                nm, how = resolve(t["sym"], False)
+                enc = PTR_ENC[t["a"] % len(PTR_ENC)]
+                lines.append(f".cfi_{k} {enc}, {nm}")
+                cfi_item(f".cfi_{k}", [enc], nm, how, group=k)
+            elif k == "return_column":
+                if k in proc:
+                    continue
+                proc[k] = True
+                lines.append(f".cfi_return_column {t['a']}")
+                cfi_item(".cfi_return_column", [t["a"]], group=k)
+            elif k == "escape":
+                vals = [v & 0xFF for v in t.get("esc", [0])] or [0]
+                lines.append(".cfi_escape " + ", ".join(str(v) for v in vals))
+                cfi_item(".cfi_escape", vals)
+            else:
+                if k == "restore_state":
+                    if proc["depth"] == 0:
+                        continue
+                    proc["depth"] -= 1
+                if k == "remember":
+                    proc["depth"] += 1
+                name, sig = CFI_TEXT[k]
+                args = [{"a": t["a"], "A": (t["a"] + 3) % 16, "b": t["b"]}[c] for c in sig]
+                lines.append(name + (" " + ", ".join(str(a) for a in args) if args else ""))
+                cfi_item(name, args)
+            continue
         if "sec" in t:
             cur = secname[t["sec"]]
             sections.setdefault(cur, [])
@@ -158,6 +237,8 @@ def _program(spec):
                 lines.append(".byte " + ", ".join(str(b) for b in bs))
                 it = _Item("data", pos[cur], len(bs), data=bs, dkind="byte")
             elif d == "zero":
+                if t["n"] < 1:
+                    raise BadSpec(".zero 0")
                 bs = bytes(t["n"])
                 lines.append(f".zero {t['n']}")
                 it = _Item("data", pos[cur], len(bs), data=bs, dkind="zero")
@@ -173,6 +254,11 @@ def _program(spec):
                 add = t.get("add", 0)
                 lines.append(f".{'long' if w == 4 else 'quad'} {nm}" + (f"+{add}" if add else ""))
                 it = _Item("data", pos[cur], w, data=bytes(w), dkind="word", sym=nm, how=how, addend=add, field=(0, w))
+            elif d == "leb":
+                nm, how = resolve(t["sym"], False)
+                lines.append(f".{'s' if t.get('s') else 'u'}leb128 {nm}")
+                it = _Item("data", pos[cur], 1, data=b"\0", dkind="sleb" if t.get("s") else "uleb", sym=nm, how=how,
+                           addend=0, field=(0, 1))
             elif d == "align":
                 lines.append(f".align {t['n']}")
                 sections[cur].append(_Item("align", pos[cur], 0, n=t["n"]))
@@ -195,6 +281,11 @@ def _program(spec):
         sections[cur].append(_Item("insn", pos[cur], len(data), data=data, ikind=tpl.kind, sym=symname, how=how,
                                    addend=0, field=tpl.symfield, tname=tpl.name))
         pos[cur] += len(data)
+    if proc is not None:
+        if cur != ".text":
+            lines.append(".text")
+        lines.append(".cfi_endproc")
+        cfi_item(".cfi_endproc", [], group="end")
     return "\n".join(lines) + "\n", sections, labels, undef
 
 
@@ -214,9 +305,59 @@ def _nontrivial(sections):
                 feats.add("label-after-terminator")
             if prev is not None and {it.kind, prev.kind} == {"insn", "data"}:
                 feats.add("data-next-to-code")
-            if it.kind != "align":
+            if it.kind == "cfi":
+                feats.add("cfi")
+            if it.kind == "data" and it.dkind in ("uleb", "sleb"):
+                feats.add("leb128")
+            if it.kind not in ("align", "cfi"):
                 prev = it
     return feats
+
+
+def _leb_reachable(sections, spec):
+    """May control flow reach some LEB128 value?  It does at the entry of
+    .text (unless trivially unreachable), directly after a call / conditional
+    jump, under a label that a branch or call names, and when a label or
+    .align (both start a new block with a fallthrough edge) separates it from
+    preceding bytes that are, or may be, code that can fall through; a block
+    with CFI directives attached is kept as code as well."""
+    targets = {it.sym for items in sections.values() for it in items
+               if it.kind == "insn" and it.ikind in ("jmp", "jcc", "call") and it.how == "own"}
+    for sname, items in sections.items():
+        real = [it for it in items if it.kind in ("insn", "data")]
+        idx = {id(it): k for k, it in enumerate(items)}
+
+        def labelled(it):
+            return any(l.kind == "label" and l.pos == it.pos and l.name in targets for l in items)
+
+        def boundary(k):
+            lo, hi = idx[id(real[k - 1])], idx[id(real[k])]
+            return any(x.kind in ("label", "align") for x in items[lo + 1:hi])
+
+        code = []
+        for k, it in enumerate(real):
+            if it.kind == "insn":
+                code.append(True)
+            else:
+                entry = k == 0 and sname == ".text" and not spec.get("unreach")
+                after = k > 0 and code[k - 1] and (real[k - 1].kind == "data" or real[k - 1].ikind in ("ord", "jcc", "call", "icall"))
+                has_cfi = any(x.kind == "cfi" and it.pos <= x.pos <= it.pos + it.size for x in items)
+                code.append(bool(entry or labelled(it) or after or has_cfi))
+        for k, it in enumerate(real):
+            if not (it.kind == "data" and it.dkind in ("uleb", "sleb")):
+                continue
+            if k == 0 and sname == ".text" and not spec.get("unreach"):
+                return True
+            if labelled(it):
+                return True
+            # (a block that carries CFI directives stays a code block)
+            if any(x.kind == "cfi" and x.pos in (it.pos, it.pos + 1) for x in items):
+                return True
+            if k > 0 and real[k - 1].kind == "insn" and real[k - 1].ikind in ("jcc", "call", "icall"):
+                return True
+            if k > 0 and boundary(k) and code[k - 1] and (real[k - 1].kind == "data" or real[k - 1].ikind == "ord"):
+                return True
+    return False
 
 
 def evaluate(spec):
@@ -254,8 +395,16 @@ def evaluate(spec):
         asm.assemble(text, mcasm.X86Syntax.INTEL if spec.get("syntax") == "intel" else mcasm.X86Syntax.ATT)
         res = asm.finalize()
     except Exception as e:
+        leb_in_code = _leb_reachable(sections, spec)
+        if leb_in_code and type(e).__name__ == "UnsupportedAssemblyError" and "data type" in str(e):
+            # a LEB128 value that control flow can reach cannot be represented
+            # (documented rejection); only possible in the executable section
+            out.classes.append("leb128-in-reachable-code-rejected")
+            return out
         out.fail("C12.assembles", "raised:" + exc_kind(e), f"{e!r} for {text!r}"[:500])
         return out
+    cfi_table = res.create_cfi_directives()
+    cfi_blocks = {id(k.element_id) for k in cfi_table}
     rsyms = {s.name: s for s in res.symbols}
     # ---- per section -------------------------------------------------------
     for sname, items in sections.items():
@@ -373,7 +522,7 @@ def evaluate(spec):
                 out.fail("C12.terminators", "edges-without-terminator", f"{sname}: block {k}: {[str(e.label) for e in rest]}")
         # code / data classification
         for k, b in enumerate(blocks):
-            if not b.size or has_insn.get(k):
+            if not b.size or has_insn.get(k) or id(b) in cfi_blocks:
                 continue
             incoming = isinstance(b, gtirb.CodeBlock) and any(True for _ in res.cfg.in_edges(b))
             entry = (k == 0 and executable and not spec.get("unreach") and sname == ".text")
@@ -383,6 +532,71 @@ def evaluate(spec):
             else:
                 if not incoming and not entry and not (k == 0 and executable and not spec.get("unreach")):
                     out.fail("C12.code-data", "data-only-block-without-incoming-edges-is-code", f"{sname}: block {k} of {text!r}"[:300])
+        # LEB128 values: alone in a typed data block
+        for it in items:
+            if it.kind == "data" and it.dkind in ("uleb", "sleb"):
+                k, b = block_at(it.pos)
+                want_t = Assembler.Result.DataType.ULEB128 if it.dkind == "uleb" else Assembler.Result.DataType.SLEB128
+                if b is None or not isinstance(b, gtirb.DataBlock) or (b.offset, b.size) != (it.pos, 1):
+                    out.fail("C12.leb128", "not-its-own-data-block", f"{sname}+{it.pos}: {type(b).__name__} {getattr(b, 'offset', None)}+{getattr(b, 'size', None)}")
+                elif rs.block_types.get(b) != want_t:
+                    out.fail("C12.leb128", "block-type", f"{sname}+{it.pos}: {rs.block_types.get(b)} expected {want_t}")
+        # CFI directives: at their listing position, in listing order, with
+        # personality / LSDA / return column attached to their procedure's start
+        wantcfi = {}
+        procs, cur_p = [], None
+        for it in items:
+            if it.kind != "cfi":
+                continue
+            if it.group == "start":
+                cur_p = {"start": it, "head": {}, "body": [], "end": None}
+                procs.append(cur_p)
+            elif it.group == "end":
+                cur_p["end"] = it
+                cur_p = None
+            elif it.group in ("personality", "lsda", "return_column"):
+                cur_p["head"][it.group] = it
+            else:
+                cur_p["body"].append(it)
+        for pr in procs:
+            p0 = pr["start"].pos
+            wantcfi.setdefault(p0, []).append(pr["start"])
+            for g in ("lsda", "personality", "return_column"):
+                if g in pr["head"]:
+                    wantcfi[p0].append(pr["head"][g])
+            for it in pr["body"]:
+                wantcfi.setdefault(it.pos, []).append(it)
+            wantcfi.setdefault(pr["end"].pos, []).append(pr["end"])
+        gotcfi = {}
+        for k, b in enumerate(blocks):
+            for disp, ds in sorted(cfi_table.get(b, {}).items()):
+                for dname, dargs, dsym in ds:
+                    gotcfi.setdefault(b.offset + disp, []).append((dname, list(dargs), dsym))
+                if not (0 <= disp <= b.size):
+                    out.fail("C12.cfi", "displacement-outside-block", f"{sname}: block {k} +{disp}")
+        for p_ in sorted(set(wantcfi) | set(gotcfi)):
+            w = wantcfi.get(p_, [])
+            g_ = gotcfi.get(p_, [])
+            wl = [(it.d[0], it.d[1]) for it in w]
+            gl = [(n_, a_) for n_, a_, _s in g_]
+            # personality / LSDA / return column may be listed in any order
+            # inside their procedure's start group
+            if sorted(map(repr, wl)) != sorted(map(repr, gl)):
+                out.fail("C12.cfi", "directives-differ", f"{sname}+{p_}: expected {wl} got {gl}")
+                continue
+            body_w = [x for x in wl if x[0] not in (".cfi_lsda", ".cfi_personality", ".cfi_return_column")]
+            body_g = [x for x in gl if x[0] not in (".cfi_lsda", ".cfi_personality", ".cfi_return_column")]
+            if body_w != body_g:
+                out.fail("C12.cfi", "order-differs", f"{sname}+{p_}: expected {body_w} got {body_g}")
+            for it in w:
+                if it.d[2] is None:
+                    continue
+                match = [s_ for n_, a_, s_ in g_ if n_ == it.d[0]]
+                wsym = modsyms[it.d[2]] if it.how == "mod" else None
+                ok = bool(match) and isinstance(match[0], gtirb.Symbol) and (
+                    match[0] is wsym if wsym is not None else match[0].name in (it.d[2], it.d[2] + "_7"))
+                if not ok:
+                    out.fail("C12.cfi", "pointer-symbol", f"{sname}+{p_}: {it.d[0]} {it.d[2]}: {[getattr(x, 'name', x) for x in match]}")
         # alignment directives
         for it in items:
             if it.kind == "align":
